@@ -370,7 +370,7 @@ func evalOperand(a Operand, item val.Item, values val.Item) opv {
 	case "size":
 		v, ok := a.Path.Resolve(item)
 		if !ok {
-			return opv{unsure: true}
+			return opv{} // the size of a missing attribute is no value: the operand is missing
 		}
 		switch v.K {
 		case val.KS:
@@ -389,7 +389,7 @@ func evalOperand(a Operand, item val.Item, values val.Item) opv {
 		case val.KM:
 			return opv{v: val.Num(fmt.Sprint(len(v.M))), present: true}
 		}
-		return opv{unsure: true}
+		return opv{} // a number, BOOL or NULL has no size: no value, whatever the request compares it with
 	}
 	return opv{bad: true}
 }
@@ -420,7 +420,7 @@ func evalCmp(op string, l, r opv) Res {
 		return R
 	}
 	if l.unsure || r.unsure {
-		return F | R
+		return T | F // the value is not certain (size of a string with multi-byte characters); the request is valid
 	}
 	if !l.present || !r.present {
 		if op == "<>" {
@@ -436,12 +436,17 @@ func evalCmp(op string, l, r opv) Res {
 	}
 	// ordering
 	if !orderable(l.v.K) || !orderable(r.v.K) {
-		// DynamoDB: false for attributes of such a type, ValidationException for :values. minidyn's
-		// unit tests pin a "type mismatch" error whenever an operand is of a non-orderable type and
-		// its evaluator cannot tell attributes from :values, so both answers are admitted.
-		return F | R
+		// DynamoDB: false for ATTRIBUTES of such a type - what an item holds never makes a request invalid -
+		// and a ValidationException for :values of such a type (minidyn's unit tests pin an error for those)
+		if (l.isVal && !orderable(l.v.K)) || (r.isVal && !orderable(r.v.K)) {
+			return F | R
+		}
+		return F
 	}
 	if l.v.K != r.v.K {
+		if l.isVal && r.isVal {
+			return F | R // two :values of different types: the request itself compares what cannot be compared
+		}
 		return F
 	}
 	c := cmpOrder(l.v, r.v)
@@ -473,19 +478,25 @@ func (c *Cond) Eval(item val.Item, values val.Item) Res {
 			return R
 		}
 		if x.unsure || lo.unsure || hi.unsure {
-			return F | R
+			return T | F
 		}
-		if lo.present && hi.present && (lo.v.K != hi.v.K || !orderable(lo.v.K) || !orderable(hi.v.K)) {
-			return F | R
-		}
-		if (x.present && !orderable(x.v.K)) || (lo.present && !orderable(lo.v.K)) || (hi.present && !orderable(hi.v.K)) {
-			return F | R // an operand of a non-orderable type: false or rejected (see evalCmp)
+		// what the REQUEST supplies decides whether it is valid: a :value of a type that cannot be ordered, or
+		// :values of different types among the three operands, may be refused; what the ITEM holds never is
+		supplied := val.Kind("")
+		for _, o := range []opv{x, lo, hi} {
+			if !o.isVal {
+				continue
+			}
+			if !orderable(o.v.K) || (supplied != "" && supplied != o.v.K) {
+				return F | R
+			}
+			supplied = o.v.K
 		}
 		if !x.present || !lo.present || !hi.present {
 			return F
 		}
-		if x.v.K != lo.v.K {
-			return F | R // DynamoDB: false; tolerated: reject (bounds are of a type the attribute is not)
+		if !orderable(x.v.K) || !orderable(lo.v.K) || !orderable(hi.v.K) || x.v.K != lo.v.K || x.v.K != hi.v.K {
+			return F // an attribute of a type that cannot be ordered, or of another type than the other operands
 		}
 		if lo.isVal && hi.isVal && cmpOrder(lo.v, hi.v) > 0 {
 			return F | R // DynamoDB rejects a BETWEEN whose bounds are out of order
@@ -547,6 +558,9 @@ func (c *Cond) Eval(item val.Item, values val.Item) Res {
 		}
 		v, ok := c.Args[0].Path.Resolve(item)
 		if sub.v.K != val.KS && sub.v.K != val.KB {
+			if !sub.isVal {
+				return F // the second operand is an attribute of another type: false for this item
+			}
 			if !ok {
 				return F | R // missing attribute: false; operand of a type begins_with does not accept: reject
 			}
@@ -556,10 +570,7 @@ func (c *Cond) Eval(item val.Item, values val.Item) Res {
 			return F
 		}
 		if v.K != sub.v.K {
-			if v.K == val.KS || v.K == val.KB {
-				return F | R
-			}
-			return F | R // attribute of a type begins_with is not defined for
+			return F // the attribute is of a type that does not begin with that: false, the request is valid
 		}
 		return b2r(strings.HasPrefix(v.Str, sub.v.Str))
 	case "contains":
@@ -575,14 +586,12 @@ func (c *Cond) Eval(item val.Item, values val.Item) Res {
 			return F
 		}
 		switch v.K {
-		case val.KS:
-			if o.v.K != val.KS {
-				return F | R
-			}
-			return b2r(strings.Contains(v.Str, o.v.Str))
-		case val.KB:
-			if o.v.K != val.KB {
-				return F | R
+		case val.KS, val.KB:
+			if o.v.K != v.K {
+				if o.isVal && o.v.K != val.KS && o.v.K != val.KB {
+					return F | R // a :value no string can contain (minidyn's unit tests pin an error)
+				}
+				return F
 			}
 			return b2r(strings.Contains(v.Str, o.v.Str))
 		case val.KSS, val.KNS, val.KBS:
@@ -591,7 +600,7 @@ func (c *Cond) Eval(item val.Item, values val.Item) Res {
 				if o.v.K == v.K {
 					return Any // set-in-set: minidyn treats as subset; DynamoDB: false. Not documented well.
 				}
-				return F | R
+				return F
 			}
 			for _, m := range v.Set {
 				if val.Equal(val.V{K: want, Str: m}, o.v) {
@@ -607,7 +616,7 @@ func (c *Cond) Eval(item val.Item, values val.Item) Res {
 			}
 			return F
 		}
-		return F | R
+		return F // a number, BOOL, NULL or map contains nothing
 	case "not":
 		k := c.Kids[0].Eval(item, values)
 		out := Res(0)
